@@ -225,6 +225,10 @@ impl<'p> CoroutinePool<'p> {
             }
             std::thread::sleep(Duration::from_millis(1));
         }
+        if self.get_running_size() > 0 {
+            // accepted tasks are still in progress: do not report success
+            return Err(Error::new(ErrorKind::TimedOut, "stop timeout !"));
+        }
         assert_eq!(PoolState::Stopping, self.stopped()?);
         self.do_clean();
         Ok(())
